@@ -1204,6 +1204,35 @@ fn edns_cases(cx: &mut Ctx, rng: &mut Rng, scale: usize) {
     }
 }
 
+/// RDATA longer than a 16-bit size prefix can hold, through the safe API (Vec<u8> implements
+/// BuildInMessage): the builder must refuse with an error like the old builder's LongRecordData,
+/// not panic.
+fn long_rdata_case(cx: &mut Ctx, rdlen: usize) {
+    cx.idx += 1;
+    if !cx.out.wants(cx.idx) { return; }
+    let tag = format!("long-rdata {}", rdlen);
+    cx.out.begin(&tag);
+    cx.out.oracle_case(&tag, true, "script:long-rdata");
+    let r = catch(move || {
+        let mut buffer = vec![0u8; 12 + rdlen + 64];
+        let mut comp = NameCompressor::default();
+        let mut b = MessageBuilder::new(&mut buffer, &mut comp, U16::new(1), HeaderFlags::default());
+        let w = [1u8, b'a', 0]; let name: &Name = <&Name>::parse_bytes(&w).unwrap();
+        let ok = b.push_answer(&Record::<&Name, Vec<u8>> { rname: name, rtype: RType { code: U16::new(RAW_TYPE) }, rclass: RClass::IN, ttl: TTL::from(1), rdata: vec![7u8; rdlen] }).is_ok();
+        let m = b.finish();
+        let mut bytes = m.header.as_bytes().to_vec(); bytes.extend_from_slice(&m.contents);
+        (ok, bytes)
+    });
+    let old_ok = domain::base::rdata::UnknownRecordData::from_octets(Rtype::from_int(RAW_TYPE), vec![7u8; rdlen]).is_ok();
+    match r {
+        Err(p) => cx.verdict(false, "new_builder_rdata_overflow_panic", &tag, &format!("old builder: {}; new builder panicked: {}", if old_ok { "accepts" } else { "LongRecordData error" }, p)),
+        Ok((ok, bytes)) => {
+            cx.verdict(ok == old_ok, "new_builder_rdata_length_mismatch", &tag, &format!("old accepts={} new accepts={}", old_ok, ok));
+            if ok { let b2 = bytes.clone(); let ro = catch(move || read_old(&b2)); cx.verdict(matches!(ro, Ok(Ok(ref v)) if v.len() == 1 && v[0].4.len() == rdlen), "built_new_read_old_mismatch", &tag, "record of maximal RDATA does not read back"); }
+        }
+    }
+}
+
 /// T2 for the compressor model: Name::build_in_message for a list of names,
 /// starting at contents offset `base` of a zeroed buffer; observation = the
 /// octets written.  Oracle: every name reads back (both readers) as pushed.
@@ -1360,6 +1389,10 @@ fn main() {
     }
     // EDNS
     edns_cases(&mut cx, &mut rng, scale);
+    // 65536 and more: finding new_builder_rdata_overflow_panic (pending/C19-sizeprefixed-overflow-error.diff);
+    // enabled with C19_LONG_RDATA=1 until the repair is in /repo, afterwards unconditionally
+    for n in [65534usize, 65535] { long_rdata_case(&mut cx, n); }
+    if std::env::var("C19_LONG_RDATA").is_ok() { for n in [65536usize, 70000] { long_rdata_case(&mut cx, n); } }
     // compressor alone (T2 against the model)
     bim_case(&mut cx, 0, &[l(&["b", "c"]), l(&["a", "c"]), l(&["x", "a", "b", "c"])], "bim:regress");
     bim_case(&mut cx, 0, &[l(&["a", "ab"]), l(&["\x01a", "ab"])], "bim:regress");
